@@ -48,12 +48,88 @@ def isolation(executor_names):
     return check
 
 
+BUILDERS = {"build_node_start_event": "start", "build_node_end_event": "end", "build_node_error_event": "error",
+            "build_cache_hit_event": "cache_hit", "build_route_decision_event": "route"}
+EMITS = {"emit", "emit_async"}
+
+
+def node_span(debug=bool(__import__("os").environ.get("NODE_SPAN_DEBUG"))):
+    """C12, one executed node: when the dispatcher is active the node's events are, in this order, exactly one NodeStart (the
+    first delivery), then only cache-hit / route-decision events, and exactly one closing event (NodeEnd when the node's
+    outputs are used, NodeError when an Exception leaves the node) as the LAST delivery; the closing and cache-hit events
+    are built from the span id the start builder returned, and every builder is given this run's id, this run's span and
+    this node.  An inactive dispatcher is handed nothing.  (The fields of the events are the builders' own contracts,
+    c_event_helpers.py.)  Not covered: a path on which a delivery itself raised (a strict dispatcher's processor failure),
+    and a non-Exception BaseException leaving the node (pause / interpreter shutdown: the run does not terminate
+    "completed or failed", outside C12's quantifier) - there at most one closing event may have been delivered."""
+    def check(tr, outcome, raised, env, ex, s):
+        import z3
+        from pyvc.engine import truth
+        marks = [i for i, e in enumerate(tr) if e[0] == "loop-iter" and e[1] == 0]
+        if marks:
+            tr = tr[marks[-1]:]
+        elif any(e[0] == "loop-exhausted" and e[1] == 0 for e in tr):
+            return True  # the node loop completed: every iteration was checked as a loop body
+        calls_ = [e for e in tr if e[0] == "call"]
+        built = [(BUILDERS[_nm(e[1])], e[2]) for e in calls_ if _nm(e[1]) in BUILDERS]
+        emits = [e[2] for e in calls_ if _nm(e[1]) in EMITS]
+        if debug:
+            print("node_span-all", outcome, [(_nm(e[1])) for e in tr if e[0] in ("call", "raised-by") and _nm(e[1]) in set(BUILDERS) | EMITS | {"execute_node"}], [e[1:] for e in tr if e[0] == "raised-by"])
+        if any(e[0] == "raised-by" and _nm(e[1]) in EMITS for e in tr):
+            return True
+        starts = [b for b in built if b[0] == "start"]
+        if not starts:
+            return not emits
+        if len(starts) != 1 or "_result" not in starts[0][1]:
+            return False
+        sid, start_evt = starts[0][1]["_result"].items
+        active = truth(env["active"], s)
+        if not emits:
+            return z3.Not(active)
+        conds = [active]
+        kinds = []
+        for em in emits:
+            ev_t = _val_t(em.get("event"))
+            src = [b for b in built if ev_t is not None and "_result" in b[1] and (
+                _val_t(b[1]["_result"].items[1] if b[0] == "start" else b[1]["_result"]) is not None
+                and _val_t(b[1]["_result"].items[1] if b[0] == "start" else b[1]["_result"]).eq(ev_t))]
+            if len(src) != 1:
+                return False  # something other than a builder's event was delivered
+            kinds.append(src[0][0])
+            a = src[0][1]
+            conds += [_val_t(a["run_id"]) == _val_t(env["run_id"]), _val_t(a["run_span_id"]) == _val_t(env["run_span_id"]), _val_t(a["node"]) == _val_t(env["node"])]
+            if src[0][0] in ("end", "error", "cache_hit"):
+                conds.append(_val_t(a["node_span_id"]) == _val_t(sid))
+        if debug:
+            print("node_span", outcome, kinds)
+        closers = [k for k in kinds if k in ("end", "error")]
+        if kinds[0] != "start" or kinds.count("start") != 1 or len(closers) > 1 or (closers and kinds[-1] not in ("end", "error")):
+            return False
+        if outcome in ("iter", "return"):
+            ok = kinds[-1] == "end"
+        elif outcome == "raise:BaseException":
+            # an Exception leaving the node must have produced the NodeError; a pause / interpreter-level signal need not
+            ok = True
+            if not closers:
+                exc = getattr(raised, "exc", None)
+                if exc is None:
+                    return False
+                from pyvc import smt
+                conds.append(z3.Not(smt.inst_pred("Exception")(exc.t)))
+            elif kinds[-1] != "error":
+                ok = False
+        else:
+            ok = kinds[-1] == "error"
+        return z3.And(*conds) if ok else False
+    return {"name": "C12 one node = one span: NodeStart first, exactly one NodeEnd / NodeError of the SAME span last, nothing when inactive", "check": check}
+
+
 SUPERSTEP_PARAMS = {"graph": OBJ("Graph"), "state": OBJ("GraphState"), "ready_nodes": SEQ(OBJ("HyperNode")), "provided_values": DICT(STR, ANY), "execute_node": ANY,
                     "cache": ANY, "dispatcher": OPT(OBJ("EventDispatcher")), "run_id": STR, "run_span_id": STR}
 
 CONTRACTS = {
     SS + "run_superstep_sync": dict(
-        props=["C02", "C01"],
+        props=["C02", "C01", "C12"],
         params=SUPERSTEP_PARAMS,
         returns=OBJ("GraphState"),
         # call-site preconditions: run-time inputs are seeded into the state (initialize_state); every ready node has a
@@ -65,9 +141,9 @@ CONTRACTS = {
         ensures=["result is not state"],
         # the snapshot is never written: every write goes to objects allocated by this call (the copy)
         modifies=["execute_node.current_span_id"],
-        trace=[{"name": "C02 same-step isolation on every path out of the superstep", "check": isolation({"execute_node"})}],
+        trace=[{"name": "C02 same-step isolation on every path out of the superstep", "check": isolation({"execute_node"})}, node_span()],
         loops=[{"modifies": ["new_state.values", "new_state.versions", "new_state.routing_decisions", "new_state.node_executions", "execute_node.current_span_id"],
-                "invariant": ["new_state is not state"], "body_trace": [{"name": "C02 same-step isolation in every completed iteration", "check": isolation({"execute_node"})}]},
+                "invariant": ["new_state is not state"], "body_trace": [{"name": "C02 same-step isolation in every completed iteration", "check": isolation({"execute_node"})}, node_span()]},
                {"modifies": ["new_state.values", "new_state.versions"], "invariant": []}],
         callables={"execute_node": {"raises": ["BaseException"], "returns": DICT(STR, ANY)}},
     ),
@@ -77,7 +153,7 @@ CONTRACTS = {
 # copy `new_state` made before the workers start) are given as parameters, with `new_state is not state` from the caller.
 CONTRACTS.update({
     AS + "run_superstep_async.execute_one": dict(
-        props=["C02", "C01"],
+        props=["C02", "C01", "C12"],
         params={"node": OBJ("HyperNode"), "graph": OBJ("Graph"), "state": OBJ("GraphState"), "new_state": OBJ("GraphState"), "provided_values": DICT(STR, ANY),
                 "execute_node": ANY, "cache": ANY, "dispatcher": OPT(OBJ("EventDispatcher")), "active": BOOL, "run_id": STR, "run_span_id": STR},
         returns=ANY,
@@ -88,7 +164,7 @@ CONTRACTS.update({
         call_site="opaque",
         # the worker writes only to the copy's routing decisions (through the executor / cache restore) and the span slot
         modifies=["new_state.routing_decisions", "execute_node.current_span_id"],
-        trace=[{"name": "C02 same-step isolation: the worker reads the snapshot, hands the copy to the executor", "check": isolation({"execute_node"})}],
+        trace=[{"name": "C02 same-step isolation: the worker reads the snapshot, hands the copy to the executor", "check": isolation({"execute_node"})}, node_span()],
         callables={"execute_node": {"raises": ["BaseException"], "returns": DICT(STR, ANY), "coroutine": True}},
     ),
 })
